@@ -25,20 +25,23 @@ def cfg_text(steps, budget, listlen, styles, tail):
 
 def body(c):
     if c.quick:
-        bounds = (2, 1, 1, ["anon", "namedAlias"])
-    else:
-        bounds = (3, 2, 2, ["anon", "named", "anonAlias", "namedAlias"])
-    gcfg = c.path("Gen.cfg")
-    with open(gcfg, "w") as f:
-        f.write(cfg_text(*bounds, "INVARIANT GenSound\nINVARIANT IdealRedacts\nINVARIANT DevsInsideSecrets\nINVARIANT Emit\n"))
-    g = vlib.run_tlc("gql/Redaction.tla", gcfg, env={"SCHEMA": SCHEMA}, workers=8, timeout=3000, keep_lines=20, xmx="12g")
-    if g.invariant_violated:
-        raise vlib.ToolError("design-level failure in Redaction.tla: " + str(g.invariant_violated))
-    c.add_tlc("M+G Redaction (steps<=%d, shape budget %d, lists<=%d): generator sound, ideal printer redacts, cases" % bounds[:3], g)
-    rows = sorted(set(t[1] for t in g.tagged("REPLAY")))
+        configs = [(2, 1, 2, ["anon", "namedAlias"])]
+    else:   # deep shapes with single-element lists, and shallower shapes with one- and two-element lists; all four styles
+        configs = [(3, 2, 1, ["anon", "namedAlias"]), (3, 1, 2, ["named", "anonAlias"])]
+    rows = set()
+    for k, bounds in enumerate(configs):
+        gcfg = c.path("Gen%d.cfg" % k)
+        with open(gcfg, "w") as f:
+            f.write(cfg_text(*bounds, "INVARIANT GenSound\nINVARIANT IdealRedacts\nINVARIANT DevsInsideSecrets\nINVARIANT Emit\n"))
+        g = vlib.run_tlc("gql/Redaction.tla", gcfg, env={"SCHEMA": SCHEMA}, workers=8, timeout=3000, keep_lines=20, xmx="12g")
+        if g.invariant_violated:
+            raise vlib.ToolError("design-level failure in Redaction.tla: " + str(g.invariant_violated))
+        c.add_tlc("M+G Redaction (steps<=%d, shape budget %d, lists<=%d, styles %s): generator sound, ideal printer redacts, cases" % (bounds[0], bounds[1], bounds[2], "/".join(bounds[3])), g)
+        rows |= set(t[1] for t in g.tagged("REPLAY"))
+    rows = sorted(rows)
     total = len(rows)
     exhaustive = True
-    cap = 6000 if c.quick else 60000
+    cap = 8000 if c.quick else 70000
     if total > cap:
         rows = random.Random(c.seed).sample(rows, cap)
         rows.sort()
@@ -86,7 +89,8 @@ def body(c):
                      "optional parts present/absent), at most one value node per argument lifted into a variable (supplied / default only / "
                      "default and supplied), styles %s: %d requests%s, each executed; distinct sentinels in all secret leaves (%d searched); "
                      "every case holds >= 1 secret leaf; distinct by (document text, variables)"
-                     % (bounds[0], bounds[1], bounds[2], "/".join(bounds[3]), total, "" if exhaustive else " (seeded sample of %d)" % len(cases), nsent))
+                     % (max(b[0] for b in configs), max(b[1] for b in configs), max(b[2] for b in configs),
+                        " + ".join("(steps<=%d, budget %d, lists<=%d: %s)" % (b[0], b[1], b[2], "/".join(b[3])) for b in configs), total, "" if exhaustive else " (seeded sample of %d)" % len(cases), nsent))
     for o in [x for x in obs if verdicts[x["id"]][0] == "ok"][:1] + [x for x in obs if verdicts[x["id"]][0] != "ok"][:2]:
         c.sample({"text": o["text"], "vars": o["vars"], "logText": o["obs"]["logText"], "verdict": verdicts[o["id"]][0]})
     c.assumptions += ["the harness document printer is trusted", "schemas/c21.json mirrors the harness schema incl. secret flags (compared with the live registry at start-up)",
